@@ -65,7 +65,7 @@ class Run:
             if f.get("status") != "open" or self.prop not in (f.get("properties") or [f.get("property")]):
                 continue
             m = f.get("match", {})
-            if m.get("kind") and m["kind"] != kind: continue
+            if m.get("kind") and not kind.startswith(m["kind"]): continue
             if m.get("regex") and not re.search(m["regex"], what + " " + json.dumps(detail or {}, default=str)):
                 continue
             v.known = f
